@@ -2,6 +2,8 @@
 # offline build of everything the checks need (run once after a fresh restore)
 set -eu
 cd "$(dirname "${BASH_SOURCE[0]}")"
+VERIF_DIR="$(pwd)"
 export CARGO_NET_OFFLINE=true
 (cd harness && cargo build --release --offline --features hooks --target-dir ../target/hooks)
 (cd harness && cargo build --release --offline --target-dir ../target/plain)
+(cd /repo && cargo build --offline --bin xml_schema_generator --target-dir "$VERIF_DIR/target/repo-bin")
